@@ -1,7 +1,7 @@
 (* Property C07 — partial lexing commits only items that more input cannot change.
    Only final statements; proofs in Engine/PartialProofs.v. *)
 From Coq Require Import List NArith.
-From LogosV Require Import Engine.Model Engine.PartialProofs.
+From LogosV Require Import Engine.Model Engine.Cert Engine.CertProofs Engine.PartialProofs Engine.PromptProofs.
 Import ListNotations.
 Local Open Scope N_scope.
 
@@ -27,3 +27,26 @@ Theorem C07_next_prefix_none : forall g act fbp fbw (w : list byte) (k : nat),
     (sk ++ fst (next_from (attempt_ref g) act fbw w false f'' s),
      snd (next_from (attempt_ref g) act fbw w false f'' s)).
 Proof. intros g act fbp fbw w k Hk _. exact (next_prefix_none g act fbp fbw w k Hk). Qed.
+
+(* Promptness.  A DFA state is determined when every unit successor is non-live and all agree on the
+   winner; then the recorded match is the same for every continuation of the input: *)
+Theorem C07_determined_scan : forall d g V R D,
+  dfa_ok d = true -> sim_ok d g V D = true -> exact_ok d g V R D = true ->
+  forall q, determined d R q = true ->
+  forall (rest : list byte) k best, bytes_ok rest ->
+  scan d q rest k best = upd best k (win d (dstep d q UEoi)).
+Proof. exact determined_scan. Qed.
+
+(* ... and under the certificate prompt_ok the partial lexer does not keep waiting in such a state:
+   it acts at the end of the buffer, or every state one byte further does (the look-around case) *)
+Theorem C07_prompt_one_byte : forall d g V R s q st, prompt_ok d g V R = true ->
+  inV V s q = true -> gfind g s = Some st -> determined d R q = true ->
+  partial_mode_test st = false \/
+  forall b t, edge_first (g_edges st) b = Some t ->
+    exists st', gfind g t = Some st' /\ partial_mode_test st' = false.
+Proof. exact prompt_one_byte. Qed.
+
+Theorem C07_no_test_acts : forall g start hops s st off c, gfind g s = Some st -> partial_mode_test st = false ->
+  at_eoi g true start (S hops) s off c = Acted (record st off c) off \/
+  at_eoi g true start (S hops) s off c = RetNone false.
+Proof. exact no_test_acts. Qed.
